@@ -290,7 +290,10 @@ func TestC05Mutants(t *testing.T) {
 			}
 		}
 		class := m.want.String()
-		stats.CaseIn("mutants", fingerprint(fc), true, func() string { return m.name + "\n" + fc.String() },
-			"class:"+class, "mutant:"+m.name, "lenient-class-"+verdict+":"+fmt.Sprint(!m.mustErr))
+		labels := []string{"class:" + class, "mutant:" + m.name}
+		if !m.mustErr {
+			labels = append(labels, "lenient-class-"+verdict)
+		}
+		stats.CaseIn("mutants", fingerprint(fc), true, func() string { return m.name + "\n" + fc.String() }, labels...)
 	})
 }
